@@ -15,8 +15,8 @@ R14.5  the eight PsbtExt finalize entry points pass the malleability switch thei
        input (finalize_mut collects per-input errors and keeps going)
 R14.7  the updater records, per descriptor type, exactly the BIP-174 redeem / witness script and nothing on a
        scriptPubKey mismatch
-(get_descriptor's inference table is not decided separately: whatever it infers, R14.3/R14.4 force the result through
-the interpreter against the real scriptPubKey, whose commitment checks are decided by C13 R13.4.)"""
+R14.6  get_descriptor infers a descriptor exactly when redeem / witness scripts and signing keys commit to the spent
+       output (decision table against BIP-174 / 16 / 141 consistency)"""
 
 import itertools
 import os
@@ -560,6 +560,182 @@ def check_updater(chk, F):
                                % (red, wit, nmap, flag), where="src/psbt/mod.rs")
 
 
+# ---- R14.6 get_descriptor ---------------------------------------------------------------------------------------
+
+def check_get_descriptor(chk, F):
+    from . import c13
+    from ..builtins import deref, PyMap
+    X = c13.X
+    PyScript, h160, sha = c13.PyScript, c13.h160, c13.sha
+    R = "R14.6"
+    chk.rule(R, "get_descriptor infers a descriptor exactly when the PSBT's scripts commit to the spent output (BIP-174 / "
+                "BIP-16 / BIP-141): decision table over output type x redeem script x witness script x keys with partial "
+                "signatures; the inferred descriptor is of the matching kind over the committed script / key")
+    gd = F.fn("get_descriptor", file="psbt/finalizer.rs")
+    chk.saw(gd)
+    KA, KB, KU = c13.KA, c13.KB, c13.KU
+    SA, SB = c13.ms_script("pk(A)", "any"), c13.ms_script("pk(B)", "any")
+
+    def pk(tok):
+        return Adt("bitcoin::PublicKey", "PublicKey", {"compressed": tok.extra == "ecdsa", "inner": tok})
+    m = Machine(F, strict=True, max_depth=60)
+    m.tok_index = c13._tok_index
+    h = m.hooks
+    for k in ("p2pk", "p2pkh", "p2wpkh", "p2wsh", "p2tr", "p2sh"):
+        h["bitcoin::Script::is_" + k] = (lambda kind: lambda m_, a, c: deref(a[0]).kind == kind)(k)
+    h["bitcoin::Script::len"] = lambda m_, a, c: deref(a[0]).bytes().length
+
+    class KeyBytes(object):
+        def __init__(self, script):
+            self.script = script
+    h["bitcoin::Script::to_bytes"] = lambda m_, a, c: KeyBytes(deref(a[0]))
+
+    def kb_index(m_, a, c):
+        v, r = deref(a[0]), deref(a[1])
+        if isinstance(v, KeyBytes) and isinstance(r, Adt):
+            n = v.script.bytes().length
+            if v.script.kind == "p2pk" and r.fields.get("start") == 1 and r.fields.get("end") == n - 1:
+                return v.script.data
+            return X.Tok("junk", "slice", 5)
+        from .. import builtins
+        return builtins._index(m_, a, c)
+    from .. import builtins as B
+    saved_index = B.TRAIT_TABLE[("std::ops::Index", "index")]
+    h["bitcoin::PublicKey::from_slice"] = lambda m_, a, c: ok(pk(deref(a[0]))) if isinstance(deref(a[0]), X.Tok) and \
+        deref(a[0]).kind == "key" else err(Term("KeyError"))
+    h["bitcoin::PublicKey::new"] = lambda m_, a, c: pk(deref(a[0])) if isinstance(deref(a[0]), X.Tok) else deref(a[0])
+    h["bitcoin::PublicKey::pubkey_hash"] = lambda m_, a, c: h160(deref(a[0]).fields["inner"])
+    h["bitcoin::PubkeyHash::to_raw_hash"] = lambda m_, a, c: deref(a[0])
+    h["bitcoin::hashes::Hash::to_raw_hash"] = lambda m_, a, c: deref(a[0])
+    h["bitcoin::Address::p2pkh"] = lambda m_, a, c: PyScript("p2pkh", h160(deref(a[0]).fields["inner"]))
+    h["bitcoin::Address::p2wpkh"] = lambda m_, a, c: PyScript("p2wpkh", h160(deref(a[0]).fields["inner"]))
+    h["bitcoin::Address::script_pubkey"] = lambda m_, a, c: deref(a[0])
+    h["bitcoin::key::CompressedPublicKey::try_from"] = lambda m_, a, c: ok(deref(a[0])) if deref(a[0]).fields["compressed"] \
+        else err(Term("Uncompressed"))
+    h["<bitcoin::CompressedPublicKey as std::convert::TryFrom<bitcoin::PublicKey>>::try_from"] = \
+        h["bitcoin::key::CompressedPublicKey::try_from"]
+    h["bitcoin::Script::to_p2wsh"] = lambda m_, a, c: PyScript("p2wsh", sha(deref(a[0]).data))
+    h["bitcoin::Script::to_p2sh"] = lambda m_, a, c: PyScript("p2sh", h160(_sbytes(deref(a[0]))))
+
+    def _sbytes(s):
+        return s.data if s.kind == "ms" else s.bytes()
+    for p in F.fns:
+        if p.endswith("::decode_consensus"):
+            h[p] = lambda m_, a, c: ok(Adt(c13.MS, "Miniscript", {"node": Term("decoded", deref(a[0]).data.name), "ty": Term("ty"),
+                                                                   "ext": Term("ext"), "phantom": (), "src": deref(a[0]).data})) \
+                if isinstance(deref(a[0]), PyScript) and deref(a[0]).kind == "ms" else err(Term("DecodeError"))
+        if p.endswith("::substitute_raw_pkh"):
+            h[p] = lambda m_, a, c: deref(a[0])
+    DESC = "descriptor::Descriptor"
+    for nm, kind in (("new_pk", "Pk"), ("new_pkh", "Pkh"), ("new_wpkh", "Wpkh"), ("new_sh_wpkh", "ShWpkh"), ("new_wsh", "Wsh"),
+                     ("new_sh_wsh", "ShWsh"), ("new_sh", "Sh"), ("new_bare", "Bare")):
+        for p in F.fns:
+            if p.endswith("Descriptor::<Pk>::" + nm):
+                def mk(kind_, nm_):
+                    def f(m_, a, c):
+                        v = deref(a[0])
+                        payload = v.fields["inner"] if isinstance(v, Adt) and "inner" in v.fields else \
+                            (v.fields.get("src") if isinstance(v, Adt) else v)
+                        r = ("desc", kind_, payload)
+                        return r if nm_ == "new_pk" else ok(r)
+                    return f
+                h[p] = mk(kind, nm)
+
+    def utxo(spk):
+        return some(Adt("bitcoin::TxOut", "TxOut", {"script_pubkey": spk, "value": Term("value")}))
+
+    def expected(spk, redeem, wscript, sigkeys):
+        """BIP-174 consistency: -> ("desc", kind, payload) | None"""
+        k = spk.kind
+        if k == "p2pk":
+            return ("desc", "Pk", spk.data)
+        if k == "p2pkh":
+            for t in sigkeys:
+                if h160(t) == spk.data:
+                    return ("desc", "Pkh", t)
+            return None
+        if k == "p2wpkh":
+            for t in sigkeys:
+                if t.extra == "ecdsa" and h160(t) == spk.data:
+                    return ("desc", "Wpkh", t)
+            return None
+        if k == "p2wsh":
+            if redeem is not None or wscript is None or wscript.kind != "ms" or sha(wscript.data) != spk.data:
+                return None
+            return ("desc", "Wsh", wscript.data)
+        if k == "p2sh":
+            if redeem is None or h160(_sbytes(redeem)) != spk.data:
+                return None
+            if redeem.kind == "p2wsh":
+                if wscript is None or wscript.kind != "ms" or sha(wscript.data) != redeem.data:
+                    return None
+                return ("desc", "ShWsh", wscript.data)
+            if redeem.kind == "p2wpkh":
+                for t in sigkeys:
+                    if t.extra == "ecdsa" and h160(t) == redeem.data:
+                        return ("desc", "ShWpkh", t)
+                return None
+            if wscript is not None or redeem.kind != "ms":
+                return None
+            return ("desc", "Sh", redeem.data)
+        if k == "ms":
+            if redeem is not None or wscript is not None:
+                return None
+            return ("desc", "Bare", spk.data)
+        return None
+    WA = PyScript("ms", SA)
+    WB = PyScript("ms", SB)
+    RWPKH = PyScript("p2wpkh", h160(KA))
+    RWSH = PyScript("p2wsh", sha(SA))
+    spks = [("p2pk", PyScript("p2pk", KA)), ("p2pkh", PyScript("p2pkh", h160(KA))), ("p2pkh-u", PyScript("p2pkh", h160(KU))),
+            ("p2wpkh", PyScript("p2wpkh", h160(KA))), ("p2wpkh-u", PyScript("p2wpkh", h160(KU))),
+            ("p2wsh", PyScript("p2wsh", sha(SA))), ("p2sh-ms", PyScript("p2sh", h160(SA))),
+            ("p2sh-wpkh", PyScript("p2sh", h160(RWPKH.bytes()))), ("p2sh-wsh", PyScript("p2sh", h160(RWSH.bytes()))),
+            ("bare", PyScript("ms", SA))]
+    redeems = [None, WA, WB, RWPKH, RWSH, PyScript("p2wpkh", h160(KB)), PyScript("p2wsh", sha(SB))]
+    wscripts = [None, WA, WB]
+    keysets = [[], [KA], [KB], [KU], [KB, KA], [KU, KA]]
+    B.TRAIT_TABLE[("std::ops::Index", "index")] = kb_index
+    n = 0
+    bad = {}
+    try:
+        for (sname, spk), redeem, wscript, ks in itertools.product(spks, redeems, wscripts, keysets):
+            inp = mk_input("x")
+            inp.fields["witness_utxo"] = utxo(spk)
+            inp.fields["non_witness_utxo"] = NONE
+            inp.fields["redeem_script"] = some(redeem) if redeem is not None else NONE
+            inp.fields["witness_script"] = some(wscript) if wscript is not None else NONE
+            inp.fields["partial_sigs"] = PyMap([(pk(t), Term("sig", t.name)) for t in ks])
+            inp.fields["bip32_derivation"] = PyMap([])
+            ps = mk_psbt(2, 0, [0], [inp])
+            n += 1
+            try:
+                r = m.call_path(gd, [ps, 0])
+            except Unsupported as e:
+                chk.fail(R, "unanalysable:" + sname, "unanalysable: %s" % e, where=e.where, kind="unanalysable")
+                break
+            except Panic as e:
+                bad.setdefault(sname, []).append("panic: %s (redeem=%r witness=%r keys=%r)" % (e, redeem, wscript, ks))
+                continue
+            got = r.fields["0"] if r.variant == "Ok" else None
+            if isinstance(got, tuple) and isinstance(got[2], Adt) and "inner" in got[2].fields:
+                got = (got[0], got[1], got[2].fields["inner"])
+            want = expected(spk, redeem, wscript, ks)
+            if repr(got) != repr(want):
+                bad.setdefault(sname, []).append("redeem=%r witness=%r sig keys=%r: inferred %r, consistent inference %r"
+                                                 % (redeem, wscript, ks, got, want))
+    finally:
+        B.TRAIT_TABLE[("std::ops::Index", "index")] = saved_index
+    for sname, _ in spks:
+        if sname in bad:
+            chk.fail(R, sname, "%d combination(s); first: %s" % (len(bad[sname]), bad[sname][0]), where="src/psbt/finalizer.rs",
+                     detail=bad[sname][:10])
+        else:
+            chk.ok(R)
+    chk.extra["R14.6_combinations"] = n
+    chk.floor(R, "combinations", n, 1000)
+
+
 def run(chk):
     F = chk.facts()
     chk.explanation = __doc__
@@ -578,3 +754,5 @@ def run(chk):
         chk.guard("R14.5", "entry-points", check_entry_points, chk, F)
     if not ONLY or "7" in ONLY:
         chk.guard("R14.7", "updater", check_updater, chk, F)
+    if not ONLY or "6" in ONLY:
+        chk.guard("R14.6", "get_descriptor", check_get_descriptor, chk, F)
